@@ -242,7 +242,7 @@ func runScenarioLogged(sc scen, rng *rand.Rand, lb *lockedBuf) []rec.Event {
 				return res.evs
 			}
 			// Write returns the number of bytes it accepted or an error
-			res.add(rec.Event{"op": "Api", "call": "Write", "ok": pan == "" && ((werr == nil && k == n) || (werr != nil && k <= n)), "panic": pan, "n": k, "want": n})
+			res.add(rec.Event{"op": "Api", "call": "Write", "ok": pan == "" && ((werr == nil && k == n) || (werr != nil && k <= n)), "panic": pan, "n": k, "want": n, "err": fmt.Sprint(werr)})
 			if werr == nil && pan == "" {
 				written = append(written, p[:k]...)
 			} else {
@@ -253,14 +253,22 @@ func runScenarioLogged(sc scen, rng *rand.Rand, lb *lockedBuf) []rec.Event {
 			var ferr error
 			done := make(chan struct{})
 			sim.Note("flushCall", 0)
-			go func() { defer close(done); pan = guard(func() { ferr = f.Flush() }); sim.Note("flushRet", 0) }()
+			go func() {
+				defer close(done)
+				pan = guard(func() { ferr = f.Flush() })
+				if ferr == nil {
+					sim.Note("flushRet", 0) // "everything is out"
+				} else {
+					sim.Note("flushErr", 0) // a Flush that reports an error claims nothing
+				}
+			}()
 			select {
 			case <-done:
 				// Flush returns only when the TNC reports no outstanding frames
 				sim.mu.Lock()
 				out := sim.outstanding("", "")
 				sim.mu.Unlock()
-				res.add(rec.Event{"op": "Api", "call": "Flush", "ok": pan == "" && ferr == nil && out == 0, "panic": pan, "outstanding": out})
+				res.add(rec.Event{"op": "Api", "call": "Flush", "ok": pan == "" && ferr == nil && out == 0, "panic": pan, "outstanding": out, "err": fmt.Sprint(ferr)})
 			case <-time.After(8 * time.Second):
 				res.add(rec.Event{"op": "Api", "call": "Flush", "ok": false, "panic": "", "err": "Flush did not return"})
 			}
